@@ -13,6 +13,13 @@ impl WasmModuleResolver {
     }
 }
 
+impl WasmModuleResolver {
+    /// true when some import specifier asked of this resolver could not be resolved
+    pub fn had_unresolved(&self) -> bool {
+        self.resolutions_cache.values().any(|it| it.is_none())
+    }
+}
+
 impl FsModuleResolver for WasmModuleResolver {
     fn resolve_import(
         &mut self,
